@@ -247,6 +247,49 @@ def cases(seed: int = 0, thorough: bool = False):
     add("astype", lambda x: x.astype(np.float64) * 3, lambda x: x.astype(np.float64) * 3, {"x": xa}, "construct")
     add("astype-int", lambda x: x.astype(np.int32), lambda x: x.astype(np.int32), {"x": _arr(rng, (5,), "float64")}, "construct",
         exact=True)
+    # ---------------------------------------------------------------- METHOD forms and keyword spellings of the Array class
+    am = _arr(rng, (2, 3, 4), "float64")
+    ac = _arr(rng, (2, 3), "complex128")
+    ab = _arr(rng, (2, 3), "bool")
+    meth = {
+        "reshape(4,6)": (lambda x: x.reshape(4, 6), lambda x: x.reshape(4, 6)),
+        "reshape(4,6,order=F)": (lambda x: x.reshape(4, 6, order="F"), lambda x: x.reshape(4, 6, order="F")),
+        "reshape((4,6),order=F)": (lambda x: x.reshape((4, 6), order="F"), lambda x: x.reshape((4, 6), order="F")),
+        "reshape(6,-1,order=F)": (lambda x: x.reshape(6, -1, order="F"), lambda x: x.reshape(6, -1, order="F")),
+        "reshape(-1,order=F)": (lambda x: x.reshape(-1, order="F"), lambda x: x.reshape(-1, order="F")),
+        "reshape(2,3,2,2,order=F)": (lambda x: x.reshape(2, 3, 2, 2, order="F"), lambda x: x.reshape(2, 3, 2, 2, order="F")),
+        "pt.reshape(order=F) positional": (lambda x: pt.reshape(x, (4, 6), "F"), lambda x: np.reshape(x, (4, 6), order="F")),
+        "transpose()": (lambda x: x.transpose(), lambda x: x.transpose()),
+        "transpose((1,2,0))": (lambda x: x.transpose((1, 2, 0)), lambda x: x.transpose((1, 2, 0))),
+        "transpose(axes=(2,0,1))": (lambda x: x.transpose(axes=(2, 0, 1)), lambda x: x.transpose((2, 0, 1))),
+        "T": (lambda x: x.T, lambda x: x.T),
+        "copy()": (lambda x: x.copy() * 2, lambda x: x.copy() * 2),
+        "astype(float32)": (lambda x: x.astype(np.float32), lambda x: x.astype(np.float32)),
+        "__pos__": (lambda x: +x, lambda x: +x),
+        "__neg__": (lambda x: -x, lambda x: -x),
+        "__abs__": (lambda x: abs(x), lambda x: abs(x)),
+        "__rmatmul__-with-ndarray-free": (lambda x: x.T @ x.T.T if False else x.reshape(6, 4).T @ x.reshape(6, 4),
+                                          lambda x: x.reshape(6, 4).T @ x.reshape(6, 4)),
+    }
+    for lbl, (fp, fn) in meth.items():
+        add(f"method:{lbl}", fp, fn, {"x": am}, "method", exact=True)
+    for lbl, (fp, fn) in {"real": (lambda x: x.real, lambda x: x.real), "imag": (lambda x: x.imag, lambda x: x.imag),
+                          "conj()": (lambda x: x.conj(), lambda x: x.conj()), "abs": (lambda x: abs(x), lambda x: abs(x))}.items():
+        add(f"method:complex:{lbl}", fp, fn, {"x": ac}, "method")
+        add(f"method:real-input:{lbl}", fp, fn, {"x": am}, "method")
+    for lbl, (fp, fn) in {"all()": (lambda x: x.all(), lambda x: x.all()), "any()": (lambda x: x.any(), lambda x: x.any()),
+                          "all(axis=0)": (lambda x: x.all(axis=0), lambda x: x.all(axis=0)),
+                          "any(axis=1)": (lambda x: x.any(axis=1), lambda x: x.any(axis=1))}.items():
+        add(f"method:bool:{lbl}", fp, fn, {"x": ab}, "method", exact=True)
+    add("method:len", lambda x: pt.full((), len(x)), lambda x: np.full((), len(x)), {"x": am}, "method", exact=True)
+    add("method:size-ndim", lambda x: pt.full((), x.size * 10 + x.ndim), lambda x: np.full((), x.size * 10 + x.ndim), {"x": am},
+        "method", exact=True)
+    # stacked matmul with operands of DIFFERENT rank (stack axes align from the right)
+    for s1, s2 in [((2, 3, 4), (2, 2, 4, 5)), ((2, 2, 3, 4), (2, 4, 5)), ((3, 1, 2, 4), (2, 4, 5)), ((2, 3, 4), (3, 1, 4, 2)),
+                   ((2, 3, 4), (4,)), ((4,), (2, 4, 3)), ((1, 3, 4), (2, 2, 4, 2))]:
+        a, b = _arr(rng, s1, "float64"), _arr(rng, s2, "float64")
+        add(f"matmul-mixed-rank:{s1}@{s2}", lambda x, y: x @ y, lambda x, y: x @ y, {"x": a, "y": b}, "contract")
+        add(f"pt.matmul-mixed-rank:{s1}@{s2}", lambda x, y: pt.matmul(x, y), lambda x, y: np.matmul(x, y), {"x": a, "y": b}, "contract")
     # compound expressions that are inlined into ONE kernel expression: operator precedence of the printers
     xi, yi, zi = _arr(rng, (6,), "int64"), _arr(rng, (6,), "int64"), _arr(rng, (6,), "int64")
     comp = {
